@@ -225,6 +225,10 @@ inductive Expr where
   | isNull (neg : Bool) (e : Expr)
   | between (neg : Bool) (e lo hi : Expr)
   | inList (neg : Bool) (e : Expr) (xs : List Expr)
+  /-- searched CASE: `parts` = [cond₁, result₁, …, condₖ, resultₖ, else] (`else` = NULL literal if absent) -/
+  | caseWhen (parts : List Expr)
+  /-- simple CASE `CASE x WHEN v₁ THEN r₁ … ELSE e END`: `parts` = [v₁, r₁, …, vₖ, rₖ, else] -/
+  | caseOf (x : Expr) (parts : List Expr)
   deriving Repr, Inhabited
 
 /-- A NULL in boolean position is unknown; a non-boolean is a type error -/
@@ -251,13 +255,27 @@ def inShipped (x : Value) (ys : List Value) : Bool :=
     | .null, .null => true
     | _, _ => cmp3 .eq x y == some true)
 
+def isNullLit : Expr → Bool
+  | .lit .null => true
+  | _ => false
+
+mutual
 /-- does the value of this expression have the 32-bit runtime kind (for unary minus)? -/
 def rtInt32 (tys : List Ty) : Expr → Bool
   | .lit (.int v) => fitsI32 v
   | .col i => tys.getD i .bigint == .int
   | .neg e => rtInt32 tys e
   | .pos e => rtInt32 tys e
+  | .caseWhen parts => rtInt32Results tys parts
+  | .caseOf _ parts => rtInt32Results tys parts
   | _ => false
+
+/-- all result branches of a CASE have the 32-bit kind (NULL branches do not matter) -/
+def rtInt32Results (tys : List Ty) : List Expr → Bool
+  | [] => true
+  | [e] => rtInt32 tys e || isNullLit e
+  | _ :: r :: rest => (rtInt32 tys r || isNullLit r) && rtInt32Results tys rest
+end
 
 mutual
 /-- Value of an expression on a row.  `tys` are the declared types of the row's columns. -/
@@ -348,6 +366,35 @@ def eval (D : Defects) (tys : List Ty) (row : Row) : Expr → Except Err Value
         else if D.inTwoValued then .ok (.bool (inShipped v vs != neg))
         else .ok (negIf neg (in3 v vs)).toValue
 
+  | .caseWhen parts => evalCaseWhen D tys row parts
+  | .caseOf x parts =>
+    match eval D tys row x with
+    | .error e => .error e
+    | .ok v => evalCaseOf D tys row v parts
+
+/-- searched CASE: the first condition that is TRUE selects its result; only that result is evaluated -/
+def evalCaseWhen (D : Defects) (tys : List Ty) (row : Row) : List Expr → Except Err Value
+  | [] => .ok .null
+  | [e] => eval D tys row e
+  | c :: r :: rest =>
+    match eval D tys row c with
+    | .error x => .error x
+    | .ok v => match asTV v with
+      | .error x => .error x
+      | .ok (some true) => eval D tys row r
+      | .ok _ => evalCaseWhen D tys row rest
+
+/-- simple CASE on the operand value `v`: the first WHEN value equal to it (never a NULL) selects its result -/
+def evalCaseOf (D : Defects) (tys : List Ty) (row : Row) (v : Value) : List Expr → Except Err Value
+  | [] => .ok .null
+  | [e] => eval D tys row e
+  | c :: r :: rest =>
+    match eval D tys row c with
+    | .error x => .error x
+    | .ok w => match cmp3 .eq v w with
+      | some true => eval D tys row r
+      | _ => evalCaseOf D tys row v rest
+
 def evalList (D : Defects) (tys : List Ty) (row : Row) : List Expr → Except Err (List Value)
   | [] => .ok []
   | e :: es => match eval D tys row e with
@@ -374,16 +421,37 @@ def wider : Ty → Ty → Ty
   | _, .int => .int
   | a, _ => a
 
-def inferTy (tys : List Ty) : Expr → Ty
-  | .lit (.int v) => if fitsI32 v then .int else .bigint
-  | .lit (.text _) => .text
-  | .lit (.bool _) => .bool
-  | .lit _ => .bool
-  | .col i => tys.getD i .bigint
-  | .neg e => inferTy tys e
-  | .pos e => inferTy tys e
-  | .arith _ a b => wider (inferTy tys a) (inferTy tys b)
-  | _ => .bool
+/-- NULL branches say nothing about the type of a CASE; numeric branches widen each other; otherwise the first
+    typed branch decides (as the binder does) -/
+def joinTy : Option Ty → Option Ty → Option Ty
+  | none, b => b
+  | a, none => a
+  | some .int, some .bigint => some .bigint
+  | some .bigint, some .int => some .bigint
+  | some a, some _ => some a
+
+mutual
+/-- static type of an expression as the binder infers it; `none` for an untyped NULL -/
+def inferTyO (tys : List Ty) : Expr → Option Ty
+  | .lit (.int v) => some (if fitsI32 v then .int else .bigint)
+  | .lit (.text _) => some .text
+  | .lit (.bool _) => some .bool
+  | .lit _ => none
+  | .col i => some (tys.getD i .bigint)
+  | .neg e => inferTyO tys e
+  | .pos e => inferTyO tys e
+  | .arith _ a b => some (wider ((inferTyO tys a).getD .bool) ((inferTyO tys b).getD .bool))
+  | .caseWhen parts => inferResults tys parts
+  | .caseOf _ parts => inferResults tys parts
+  | _ => some .bool
+
+def inferResults (tys : List Ty) : List Expr → Option Ty
+  | [] => none
+  | [e] => inferTyO tys e
+  | _ :: r :: rest => joinTy (inferTyO tys r) (inferResults tys rest)
+end
+
+def inferTy (tys : List Ty) (e : Expr) : Ty := (inferTyO tys e).getD .bool
 
 /-- a produced value is stored with the declared / inferred type: a 64-bit integer that does not fit an INT
     column is a type error; so is a value of another category -/
